@@ -13,7 +13,7 @@ PLAN_ENTRY = {'stages': [
     ]}
 
 CLAIM = {
-    'text': 'TLC enumerates curated lattice polylines of 4..9 edges (ring, comb, spiral, hexagon, zigzag, doubling back with a T junction, triangle with a reflex vertex, nested squares) x every lattice origin of a window around them (inside, outside, behind) x 15 lattice directions (axis-parallel in both senses, diagonal, Pythagorean, through vertices, along edges, nearly parallel to edges: 12:1, 1:10, 7:6), model-checks that the exact crossing table has distinct sorted representatives covering every hit edge, and judges every observation of polyline_intersections / Curve2::ray_intersections (count = number of distinct exact crossings, each on the named edge at the exact parameter, strictly ascending), spanning_ray (exactly when two crossings, from the smaller to the larger, direction kept), max_intersection, farthest_point_direction_distance (exact when |d| is an integer) and the surface-point normal-line intersection. Seeded random lattice polylines of 30..3000 edges on a 64x64 grid reach every bounding-volume tree shape; the judge scans all edges exactly.',
+    'text': 'TLC enumerates curated lattice polylines of 4..9 edges (ring, comb, spiral, hexagon, zigzag, doubling back with a T junction, triangle with a reflex vertex, nested squares) x every lattice origin of a window around them (inside, outside, behind) x 15 lattice directions (axis-parallel in both senses, diagonal, Pythagorean, through vertices, along edges, nearly parallel to edges: 12:1, 1:10, 7:6), model-checks that the exact crossing table has distinct sorted representatives covering every hit edge, and judges every observation of polyline_intersections / Curve2::ray_intersections (count = number of distinct exact crossings, each on the named edge at the exact parameter, strictly ascending), spanning_ray (exactly when two crossings, from the smaller to the larger, direction kept), max_intersection, farthest_point_direction_distance (exact when |d| is an integer) and the surface-point normal-line intersection. Seeded random lattice polylines of 30..3000 edges on a 64x64 grid reach every bounding-volume tree shape; the judge scans all edges exactly. A third of the TLC-emitted scenes and most seeded ones lie 2^17..2^23 lattice units from the origin; zero direction components are also handed over as -0.0.',
     'design_ref': 'DESIGN.md section 6 C06',
     'note': 'Trusted: TLC; harness projection. Lines collinear with an edge contribute no crossing from that edge (as a per-edge solve with a parallel test does).',
     'technique': 'TLA+ spec (L1 semantics) + TLC: bounded model checking, TLC-generated cases replayed into engeom, TLC trace validation of recorded observations',
